@@ -269,6 +269,8 @@ def word_tables(ctx):
 
 def _word_tables(ctx):
     ctx.attempt(word_tables)
+    from .c04 import cleanup_words     # (lazy import: c04 imports c01)
+    ctx.attempt(cleanup_words)
     sf = ctx.repo.func('SecFinder.findall_matching_sec')
     t = ' '.join(norm(s) for s in walk_local(sf.node) if isinstance(s, ast.stmt))
     ctx.shape('text[:sec_mo.start()].rstrip().endswith(illegal)' in t, 'TBL',
